@@ -5,6 +5,7 @@ import N2V.Lemmas.SchedExamples
 import N2V.Lemmas.SchedTerm
 import N2V.Lemmas.SchedCycle
 import N2V.Model.Run
+import N2V.Lemmas.LoadSched
 namespace N2V.C06
 open N2V N2V.Sched
 
@@ -138,5 +139,25 @@ theorem cycle_diagnostic_sound (g : Graph) (s s' : S) (f : Nat) (m : String) (h 
 theorem run_loops_terminate {E : Type} {g : Graph} (gok : GraphOK g) (a : Run.Args) (c : Choices E) (e : E) :
     (Run.build g a c e).2.2 ≠ .fuel ∧ ∀ n0, (Run.buildReloaded g a c e n0).2.2 ≠ .fuel :=
   ⟨Run.build_no_fuel gok a c e, fun n0 => Run.buildReloaded_no_fuel gok a c e n0⟩
+
+/-- **The hypotheses about the graph hold of every graph an invocation schedules on**: whatever the
+    file system and the log contain, the graph `load::read` returns (manifest, includes, then the log's
+    recorded dependency names interned) has every producer id in range, every producer listing its
+    file, and every step registered as a dependent of its ordering inputs — `GraphOK` and `DepsOK` as
+    used by the scheduler theorems of C01/C04/C05/C06/C18/C19.  Acyclicity is the property's own
+    premise (n2 reports a cycle instead). -/
+theorem loaded_graph_meets_hypotheses (w : Work.World) (m : Bytes) (l : Load.Loader) (e0 : Work.Env)
+    (h : Work.loadEnv w m = .ok (l, e0)) :
+    GraphOK (Work.schedGraph e0.g) ∧ DepsOK (Work.schedGraph e0.g) :=
+  (Work.loadEnv_graph_ok w m l e0 h).2
+
+/-- Hence, for every world and every loadable manifest without ordering cycles, the whole
+    invocation never ends in n2's internal-error state. -/
+theorem never_internal_error_loaded (w : Work.World) (m : Bytes) (l : Load.Loader) (e0 : Work.Env)
+    (h : Work.loadEnv w m = .ok (l, e0)) (acyc : Acyclic (Work.schedGraph e0.g))
+    (a : Run.Args) (hpar : 0 < a.par) (c : Choices Work.Env) :
+    (Run.build (Work.schedGraph e0.g) a c e0).2.2 ≠ .bug :=
+  (never_internal_error (loaded_graph_meets_hypotheses w m l e0 h).1 (loaded_graph_meets_hypotheses w m l e0 h).2
+    acyc a hpar c e0).1
 
 end N2V.C06
